@@ -34,7 +34,7 @@ MALFORMED = ["", "1 +", "(", "'abc", "\x00", "1 2", "a.", "[1,", "{1:", "1 ? 2",
              "\n\n  +", "1 +\n", "/* */", "// only comment", "   ", "ñ", "1 + ñ", "a[", "a(", "has(", "x.map(", "1 +\r\n*", "a b c",
              "1 +* 2", "'a' 'b'", "{", "}", "]", ")", "a{", "a{b}", "a{b:}", ".", "..a", "a.1", "1.a", "1e", "1e+", "0xg", "b'", "r'", "'''",
              "\\", "@", "#", "$x", "a ? : b", "? :", "a ?? b", "a && ", "|| a", "a | b", "a & b", "a = b", "a === b", "a <> b", "a => b",
-             "true false", "null null", "in", "a in", "in a", "\ud83d", "a\tb", "if", "a.if", "for(x)"]
+             "\n\n1 +* 2", "  \n 1 +* 2", "\n\n\n(1", " \t\n\na b", "\n  'abc", "\r\n\r\n1 2", "1\n+\n*", "\n\n\n", "true false", "null null", "in", "a in", "in a", "\ud83d", "a\tb", "if", "a.if", "for(x)"]
 
 
 FP_HEAVY = ("d1 / d2", "d1 * d2")  # bit-precise fp.div / fp.mul feeding a conversion: tens of seconds per query
